@@ -131,7 +131,7 @@ def run_config(cfg, res):
   import carbon.protocols as P
   rec = proto.install_recorder()
   r = gen.rng(cfg['seed'], 'C11', cfg['name'])
-  ncases = 60 if cfg['tier'] == 'quick' else 220
+  ncases = 250 if cfg['tier'] == 'quick' else 3000
   MAXLEN = ns.settings.PICKLE_RECEIVER_MAX_LENGTH
 
   def judge(o, items, stream, desc, may_close):
